@@ -606,6 +606,57 @@ def make_hooks(real_only_sinks=None):
 
 
 # ---------------------------------------------------------------------------- exploring undetermined branches
+def classify_predicate(v):
+    """'nan-test' (only isnan / isfinite leaves), 'dtype-test' (iscomplexobj ..), 'zero-test' (comparisons with 0), else 'other'"""
+    kinds = set()
+
+    def walk(e):
+        if isinstance(e, Unk):
+            walk(e.expr)
+        elif isinstance(e, str):
+            kinds.add('dtype-test' if 'iscomplex' in e or 'isreal' in e else ('nan-test' if 'isnan' in e else 'other'))
+        elif isinstance(e, tuple) and e:
+            if e[0] == 'fn':
+                kinds.add('nan-test' if e[1] in ('isnan', 'isfinite', 'isinf') else 'other')
+            elif e[0] == 'cmp':
+                z = [ndarr.concrete_real(x) for x in (e[2], e[3])]
+                kinds.add('zero-test' if any(c is not None and c == 0 for c in z) else 'other')
+            else:
+                for x in e[1:]:
+                    walk(x)
+        elif isinstance(e, list):
+            for x in e:
+                walk(x)
+    walk(v)
+    return kinds.pop() if len(kinds) == 1 else 'other'
+
+
+class _NonzeroSteps(dict):
+    """Marker for Explorer(pinned=...): the zero filter of the step generators is answered `keep the step` (assumption
+    'no generated step is zero', stated by the rules that use it).  The test is recognised by what it is - a branch inside
+    step_generators.py on comparisons of magnitudes with zero - not by its source text."""
+
+
+NONZERO_STEPS = _NonzeroSteps()
+
+
+def is_nonzero_step_test(interp, node, frame, value):
+    if getattr(getattr(frame, 'module', None), 'name', None) != 'step_generators':
+        return False
+    if not isinstance(value, Unk):
+        return False
+    cmps = value.comparisons()
+    if not cmps:
+        return False
+    for _, op, a, b in cmps:
+        if op in ('>', '!=') and ndarr.concrete_real(b) == 0 and ndarr.concrete_real(b) is not None:
+            continue
+        if op in ('<', '!=') and ndarr.concrete_real(a) == 0 and ndarr.concrete_real(a) is not None:
+            continue
+        return False
+    return True
+
+
 class Explorer(object):
     """Re-runs `body(oracle)` once per combination of outcomes of the undetermined branch *sites* it meets
     (both successors of every such branch are analysed; nothing is solved).  A site (source location of the
@@ -615,9 +666,10 @@ class Explorer(object):
 
     def __init__(self, max_paths=64, pinned=None, by_value=False):
         self.max_paths = max_paths
-        self.pinned = pinned or {}
+        self.pinned = pinned if pinned is not None else {}
         self.by_value = by_value  # True: one outcome per (site, value expression) instead of per site
         self.paths = []           # list of (decisions, result, exception)
+        self.site_info = {}       # (text, where) -> (function that contains the test, kind of test)
 
     def run(self, body):
         import ast as _ast
@@ -631,7 +683,10 @@ class Explorer(object):
 
             def oracle(interp, node, frame, value, prefix=prefix, decisions=decisions, by_site=by_site, by_obj=by_obj):
                 text = _ast.unparse(node)
-                if text in self.pinned:
+                if self.pinned is NONZERO_STEPS:
+                    if is_nonzero_step_test(interp, node, frame, value):
+                        return True
+                elif text in self.pinned:
                     return self.pinned[text]
                 # `not X` and `X` are one decision
                 neg = False
@@ -661,6 +716,7 @@ class Explorer(object):
                     pending.append(list(decisions) + [(False,) + site[:2] + (tags_of(value),)])
                 by_site[site] = k
                 decisions.append((choice,) + site[:2] + (tags_of(value),))
+                self.site_info[site[:2]] = (interp.stack[-1] if getattr(interp, 'stack', None) else '', classify_predicate(base_val))
                 if oid is not None:
                     by_obj[oid] = (choice, base_val.expr)     # keeps the expression alive: ids stay unique
                 return choice != neg
